@@ -133,6 +133,11 @@ def r3(ctx):
             yield VIOL("C14-R3", "get_signing_key/err-not-from-provider", "an Err exit does not carry the provider's error", where=b.span_of_block(eb))
             continue
         dc = pay.find_calls(r"downcast$")
+        conv = [x for x in pay.find_calls(r"convert::(From::from|Into::into)$") if re.search(r"<error::SignatureError as std::convert::From<std::boxed::Box<\(?dyn std::error::Error", x[1].get("resolved_full", ""))]
+        if conv and not dc:
+            # `Err(SignatureError::from(e))`: the reviewed conversion does the classification (checked below, from-boxerror/shape)
+            kinds |= {"*downcast", "InternalServiceError"}
+            continue
         if not dc or "error::SignatureError" not in dc[0][1].get("resolved_full", ""):
             yield VIOL("C14-R3", "get_signing_key/err-no-downcast", "provider error not classified by downcast::<SignatureError>()", where=b.span_of_block(eb))
             continue
@@ -176,7 +181,13 @@ def r3(ctx):
     f = ctx.fn("<error::SignatureError as std::convert::From<std::boxed::Box<(dyn std::error::Error + std::marker::Send + std::marker::Sync + 'static)>>>::from")
     fs = f.slice([0])
     aggs = {a_["stmt"]["rv"].get("variant") for a_ in fs.aggs if a_["stmt"]["rv"].get("adt") == "error::SignatureError"}
-    if not fs.has_call(r"downcast$") or aggs != {"InternalServiceError"}:
+    # ... and the Ok arm hands the provider's own SignatureError back as it is: no second look at it (a `match *sig_err`
+    # that unwraps / re-classifies some kinds), no recursion
+    relook = [bi_ for bi_ in sorted(f.live_blocks()) if f.term(bi_)["k"] == "switch" and (f.cond_of_switch(bi_) or {}).get("kind") == "discr" and re.search(r"error::SignatureError$", (f.local_ty((f.cond_of_switch(bi_) or {}).get("place", {}).get("local", 0)) or "").replace("&", "").strip())]
+    selfcalls = [t_ for _, t_ in f.calls(r"convert::(From::from|Into::into)$") if "error::SignatureError" in t_.get("resolved_full", "")]
+    if relook or selfcalls:
+        yield VIOL("C14-R3", "from-boxerror/shape", "From<BoxError> for SignatureError inspects or re-converts the provider's own SignatureError (%d match(es) on it, %d nested conversion(s)): a provider failure is no longer returned unchanged" % (len(relook), len(selfcalls)), where=loc(f.j["span"]))
+    elif not fs.has_call(r"downcast$") or aggs != {"InternalServiceError"}:
         yield VIOL("C14-R3", "from-boxerror/shape", "From<BoxError> for SignatureError is not downcast-or-InternalServiceError (constructs %s)" % sorted(aggs), where=loc(f.j["span"]))
     else:
         yield PASS("C14-R3", "from-boxerror/shape", "From<BoxError>: *downcast or InternalServiceError(e)", [loc(f.j["span"])])
